@@ -58,9 +58,9 @@ using namespace SymEngine;
 // gets std::bad_alloc / std::length_error (a std::exception = allowed outcome), but ASan's operator new
 // aborts the process instead ("allocation-size-too-big").  Replacing the replaceable operators by
 // malloc-based ones (ASan still instruments malloc/free: overflow and use-after-free detection is
-// unchanged) restores the real behaviour: a request above 4 MiB (units are <= 1 KiB), or a failed malloc, throws
+// unchanged) restores the real behaviour: a request above 256 KiB (units are <= 1 KiB), or a failed malloc, throws
 // std::bad_alloc.
-static const size_t kMaxNew = (size_t)1 << 22;
+static const size_t kMaxNew = (size_t)1 << 18;
 static bool g_cap_active = false; // only inside LLVMFuzzerTestOneInput (libFuzzer's own buffers are larger)
 static void *checked_alloc(size_t n)
 {
@@ -515,7 +515,9 @@ void edit(std::string &s, Rng &fdp, fz::Stats &st)
             if (!addrs.empty()) {
                 size_t p = addrs[fdp.ConsumeIntegralInRange<size_t>(0, addrs.size() - 1)];
                 if (s[p + 8] == 1 && p + 9 < s.size()) {
-                    s[p + 9] = (char)fdp.ConsumeIntegralInRange<unsigned>(0, TypeID_Count + 2);
+                    // any class, the first codes past the table, or a byte that is not even a TypeID enumerator
+                    s[p + 9] = (char)(fdp.ConsumeIntegralInRange<int>(0, 3) == 0 ? fdp.ConsumeIntegralInRange<unsigned>(TypeID_Count, 255)
+                                                                                  : fdp.ConsumeIntegralInRange<unsigned>(0, TypeID_Count + 2));
                     st.count("edit_typecode");
                 }
             }
